@@ -28,4 +28,15 @@ theorem C14_duration_telescopes (p : TPath) : (hopGaps p).sum = pathDuration p :
 /-- non-vacuity -/
 example : hopGaps [(1, 2, 1), (2, 3, 4), (3, 4, 9)] = [3, 5] ∧ pathDuration [(1, 2, 1), (2, 3, 4), (3, 4, 9)] = 8 := by decide
 
+/-- the duration only looks at the two ends: the instants of the hops in between, increasing or not, do not matter
+    (seeded change r11-C14-m1 computed max minus min of all hop times instead) -/
+theorem C14_duration_ends (a z : Hop) (mid : TPath) : pathDuration (a :: (mid ++ [z])) = z.2.2 - a.2.2 := by
+  have h : (a :: (mid ++ [z])).getLast? = some z := by
+    rw [show a :: (mid ++ [z]) = (a :: mid) ++ [z] from rfl, List.getLast?_append]
+    simp
+  simp [pathDuration, lastTime, firstTime, h]
+
+/-- non-vacuity: a middle hop earlier than the first one -/
+example : pathDuration [(1, 2, 5), (2, 3, 1), (3, 4, 6)] = 1 := by decide
+
 end Dynetx
